@@ -606,7 +606,8 @@ pub fn gen_c04(ctx: &Ctx, run: u64) -> ScenarioB {
                 }
                 // sometimes the "twin" of the previous position: same placement and side to move,
                 // fewer castling rights (positions that differ only in their rights share the tables)
-                if rng.chance(20, 100) {
+                let prev_has_rights = steps.last().map(|p: &SearchStep| p.fen.split_whitespace().nth(2).map(|r| r != "-").unwrap_or(false) && p.moves.len() < 12).unwrap_or(false);
+                if rng.chance(if prev_has_rights { 40 } else { 10 }, 100) {
                     if let Some(prev) = steps.last() {
                         if let Some(twin) = twin_with_fewer_rights(prev, &mut rng) {
                             st.fen = twin;
@@ -740,6 +741,22 @@ pub fn gen_c08(ctx: &Ctx, run: u64) -> ScenarioB {
         }
         steps.push(st);
     }
+    // sometimes the monitored position is the "twin" of the position searched just before: same
+    // placement, fewer castling rights (the hash move is played without a legality test)
+    let (fen, moves) = {
+        let mut fm = (fen, moves);
+        if rng.chance(1, 6) {
+            let castling = super::corpus::EXTRA.iter().copied().filter(|f| f.split_whitespace().nth(2).map(|r| r.len() >= 2).unwrap_or(false)).collect::<Vec<_>>();
+            let base = rng.pick(&castling).to_string();
+            let first = SearchStep { fen: base.clone(), moves: vec![], go: GoSpec::depth(rng.range(2, 5) as u8), move_overhead: 0, stop_at_poll: None, resize_mb: None, reset: false, clock_events: vec![] };
+            if let Some(twin) = twin_with_fewer_rights(&first, &mut rng) {
+                steps.push(first);
+                fm = (Some(twin), vec![]);
+            }
+        }
+        fm
+    };
+    let fen_s = fen.clone().unwrap_or_else(|| super::corpus::STARTPOS.to_string());
     // the monitored search: deeper, depth-limited or cancelled
     let white = side_to_move_is_white(&fen, &moves);
     let (go, stop_at_poll) = if rng.chance(4, 5) {
@@ -824,6 +841,10 @@ pub fn gen_c08_a(ctx: &Ctx, run: u64) -> ScenarioA {
                 script.push(Intent::Stop);
             }
             _ => script.push(Intent::Go(GoSpec::depth(rng.range(2, 6) as u8))),
+        }
+        // the GUI keeps pinging while the engine reports: both threads write to the same stdout
+        for _ in 0..rng.range(0, 6) {
+            script.push(Intent::IsReady);
         }
         if rng.chance(1, 2) {
             script.push(Intent::PlayBest);
